@@ -34,6 +34,7 @@ def units(tier, seed):
                 out.append({"unit": f"{ch}:p={p}:{fmt}", "kind": "stat", "channel": ch, "p": p, "fmt": fmt, "cost": 3})
         out.append({"unit": f"{ch}:dtypes-shapes", "kind": "exact", "channel": ch, "cost": 2})
         out.append({"unit": f"{ch}:many-short-calls", "kind": "short", "channel": ch, "cost": 4})
+        out.append({"unit": f"{ch}:one-object-many-forms", "kind": "reuse", "channel": ch, "cost": 2})
     return out
 
 
@@ -91,6 +92,40 @@ def run_unit(ctx, u):
                         ctx.check(tuple(y.shape) == tuple(x.shape), "shape preserved", f"{ch}|{cfgc}|shape preserved|differs", p=p, shape=list(shape), out=list(y.shape))
                         _exact_clauses(ctx, ch, cfgc, p, fmt, x.to(torch.float64), y.to(torch.float64), kw.get("erasure_symbol", -1))
         ctx.sample({"unit": u["unit"], "dtypes": ["float32", "float64", "int64", "bool"], "shapes": [[17], [4, 33], [2, 3, 5, 7], [1, 1]], "probabilities": PROBS})
+        return
+
+    if u["kind"] == "reuse":
+        # one channel object serves a sequence of calls that alternate alphabet, shape, dtype and batch size: nothing
+        # learnt from an earlier call (e.g. which alphabet is in use) may leak into a later one.  Also the erasure
+        # channel with unusual erasure symbols (2, 0.5, inf, nan): unerased symbols stay what they were.
+        gen = torch.Generator().manual_seed(seed_for("c12reuse", ctx.seed, ch))
+        for p in (0.0, 0.3, 1.0):
+            for first in ("binary", "bipolar"):
+                kw = {"erasure_symbol": 7.0} if ch == "bec" else {}
+                chan = make(ch, p, **kw)
+                order = [first, "bipolar" if first == "binary" else "binary", first, first]
+                for step, fmt in enumerate(order * 2):
+                    shape = [(9,), (3, 11), (2, 2, 5), (1, 4)][step % 4]
+                    bits = torch.randint(0, 2, shape, generator=gen).double()
+                    bits.view(-1)[0] = 0.0
+                    bits.view(-1)[-1] = 1.0
+                    x = (2 * bits - 1 if fmt == "bipolar" else bits).to([torch.float32, torch.float64][step % 2])
+                    torch.manual_seed(seed_for("c12reuse", ctx.seed, ch, p, first, step))
+                    y = chan(x)
+                    ctx.case("reuse", ch, p, first, step)
+                    _exact_clauses(ctx, ch, f"{fmt},one object across alphabets", p, fmt, x.double(), y.double(), 7.0)
+        if ch == "bec":
+            for es in (2.0, 0.5, float("inf"), float("nan")):
+                for p in (0.0, 0.4, 1.0):
+                    chan = make(ch, p, erasure_symbol=es)
+                    x = torch.randint(0, 2, (6, 40), generator=gen).float()
+                    torch.manual_seed(seed_for("c12es", ctx.seed, str(es), p))
+                    y = chan(x).double()
+                    erased = torch.isnan(y) if es != es else (y == es)
+                    ctx.case("erasure-symbol", str(es), p)
+                    ok = bool((y[~erased] == x.double()[~erased]).all()) and (p > 0 or not bool(erased.any())) and (p < 1 or bool(erased.all()))
+                    ctx.check(ok, "BEC: unerased unchanged", "bec|binary,unusual erasure symbol|BEC: unerased unchanged|changed", p=p, erasure_symbol=str(es), y=y.flatten()[:8], x=x.flatten()[:8])
+        ctx.sample({"unit": u["unit"], "sequence": "alphabets alternate, shapes (9),(3,11),(2,2,5),(1,4), float32/float64", "probabilities": [0.0, 0.3, 1.0]})
         return
 
     if u["kind"] == "short":
